@@ -238,6 +238,25 @@ def run(ctx, tier, seed, scale=1.0):
                 ctx.violation("outcome-depends-on-history", {"history": [list(x) for x in seq[:i + 1]], "text": list(sp), "first_outcome": first[sp][1],
                                                              "later_outcome": oc, "positions": [first[sp][0], i]})
                 break
+    if not quick:
+        fexe = vlib.build("fuzz", ["fuzz_json"])["fuzz_json"]
+        seeds = [c[1] for c, m in zip(cases, meta) if m[0].startswith("T") and len(c[1]) < 2048][:5000]
+        stats, arts = vlib.run_libfuzzer(fexe, "c18fuzz", seeds, runs=int(200000 * scale) + 1000, max_len=2048,
+                                         dictionary=[b"[", b"]", b"{", b"}", b'"', b"\\", b"\\u", b"true", b"false", b"null", b"1e", b"-", b".", b":", b","])
+        ctx.counters["libfuzzer"] = stats
+        ctx.counters["fuzz-executions"] = stats["executions"]
+        ctx.min_events["fuzz-executions"] = 1000
+        ctx.evaluations += stats["executions"]
+        if arts:
+            acases = [["T", b] for _, b in arts]
+            ares, hf3 = vlib.run_cases(exe, acases, "c18art", timeout_s=120, batch=1)
+            ctx.harness_failures += hf3
+            vlib.judge_crashes(ctx, exe, acases, ares, "c18art", timeout_s=120)
+            for (fn, b), r in zip(arts, ares):
+                if r.status == "ok" and r.fields[0].startswith("accepted-but"):
+                    ctx.violation("text-idempotence:%s" % r.fields[0], {"text": vlib.esc(b)[:1500], "why": r.fields[1][:300], "found_by": "libFuzzer"})
+                elif r.status == "ok":
+                    ctx.inconc("fuzzer-artifact-does-not-reproduce:" + fn.split("-")[0], vlib.esc(b)[:300])
     ctx.rule = ("V = random value tree (depth<=5, width<=5, strings over all byte values, ints at 2^31/2^53/2^63 boundaries) built through the C++ API; "
                 "T = valid JSON text / mutant / random bytes / hand-written hostile text; N = nesting probe; a case is non-trivial unless it is a bare "
                 "int/bool/null; distinct by content")
